@@ -48,6 +48,11 @@ def gen_pair_tissue(r, cm, t1, t2):
         crep = cadh
     if t1 == 0 and t2 == 0 and r.randint(0, 1):
         cadh = scale * r.uniform(0.5, 1.8)        # node-node couplings need an adhesion cut-off of the order of the node spacing
+    elif t1 == 0 and t2 == 0 and r.randint(0, 1):
+        # adhesion cut-off well below the node spacing, repulsion cut-off of its order: the node pairs between the two cut-offs are
+        # inside the broad-phase padding (max of the two) and must NOT be coupled
+        cadh = scale * r.uniform(0.05, 0.3)
+        crep = scale * r.uniform(0.8, 1.6)
     pad = max(cadh, crep)
     off = [r.choice([0.0, r.uniform(-3, 3) * scale, r.uniform(-300, 300) * scale]) for _ in range(3)]
     if nested:
@@ -61,7 +66,10 @@ def gen_pair_tissue(r, cm, t1, t2):
         ctr = [off[j] + d[j] / n * D for j in range(3)]
         pts1, f1 = cc.place(r.choice(shapes), ctr, [R1] * 3, cc.rot_matrix(r))
     else:
-        pts2, f2 = cc.place(r.choice(shapes), off, [R2 * r.uniform(0.8, 1.1) for _ in range(3)], cc.rot_matrix(r))
+        # one case in three: a strongly anisotropic face cell (obtuse and needle-like triangles: a node beyond the extension of an edge
+        # next to an obtuse corner is far from the triangle although it is close to the LINE through that edge)
+        axes = [R2 * r.uniform(0.8, 1.1) for _ in range(3)] if r.randint(0, 2) else [R2 * r.uniform(0.2, 0.5), R2 * r.uniform(0.8, 1.1), R2 * r.uniform(1.5, 2.5)]
+        pts2, f2 = cc.place(r.choice(shapes), off, axes, cc.rot_matrix(r))
         R1 = scale * r.uniform(0.5, 1.2)
         d = [r.normal() for _ in range(3)]
         n = math.sqrt(sum(x * x for x in d)) or 1.0
